@@ -379,6 +379,148 @@ def handleValidate (toks : List String) : Option String := do
   let (r, repaired) ← toks.foldlM applyValidateToken (({} : Validate.Request), true)
   return Validate.showRes (Validate.validateWith repaired r)
 
+/-! ## call layer of `moment` / `accumulate` (PGModel/Api.lean) -/
+
+structure ApiReq where
+  k : Int := 1
+  rewards : Option (List Nat) := none
+  startT : Option Rat := none
+  endT : Option Rat := none
+  times : List Rat := []
+  center : Bool := true
+  permute : Bool := true
+  dstart : Rat := 0
+  tmax : Rat := 1
+  dreward : Nat := 0
+
+def applyApiToken (r : ApiReq) (t : String) : Option ApiReq :=
+  match t.splitOn "=" with
+  | ["k", v] => v.toInt?.map fun v => { r with k := v }
+  | ["rewards", v] => if v == "none" then some { r with rewards := none }
+      else (parseList? String.toNat? v).map fun v => { r with rewards := some v }
+  | ["start", v] => (parseOptRat? v).map fun v => { r with startT := v }
+  | ["end", v] => (parseOptRat? v).map fun v => { r with endT := v }
+  | ["times", v] => (parseList? parseRat? v).map fun v => { r with times := v }
+  | ["center", v] => (parseBool01? v).map fun v => { r with center := v }
+  | ["permute", v] => (parseBool01? v).map fun v => { r with permute := v }
+  | ["dstart", v] => (parseRat? v).map fun v => { r with dstart := v }
+  | ["tmax", v] => (parseRat? v).map fun v => { r with tmax := v }
+  | ["dreward", v] => v.toNat?.map fun v => { r with dreward := v }
+  | _ => none
+
+/-- `api <variant c|f|n> <acc|mom> k=<int> rewards=<none|-|id,id,…> start=<none|rat> end=<none|rat>
+times=<rat,…|-> center=<0|1> permute=<0|1> dstart=<rat> tmax=<rat> [dreward=<id>]`
+(`key=value` tokens in any order, missing ones keep the defaults of `ApiReq`; `rewards=-` is the empty
+tuple; `start`/`end` are used by `mom`, `times` by `acc`) → `ok <rat,…>` | `err ValueError` | `err IndexError`:
+`Api.accumulateCall` / `Api.momentCall` on a distribution whose `_accumulate` is `Api.fakeRaw`,
+whose `reward` has id `dreward`, `tree_height.start_time = dstart`, `tree_height.t_max = tmax`. -/
+def handleApi : List String → Option String
+  | v :: what :: toks => do
+    let v ← if v == "c" then some Api.Variant.current else if v == "f" then some Api.Variant.falsyTimes
+      else if v == "n" then some Api.Variant.noLengthCheck else none
+    let r ← toks.foldlM applyApiToken ({} : ApiReq)
+    let ctx : Api.DistCtx Nat :=
+      { defaultReward := r.dreward, startDefault := r.dstart, tMax := r.tmax, raw := Api.fakeRaw }
+    let call : Api.MomentCall Nat := ⟨r.k, r.rewards, r.startT, r.endT, r.center, r.permute⟩
+    let res ← if what == "acc" then
+        some (Api.accumulateCall v ctx r.k r.rewards r.times r.center r.permute)
+      else if what == "mom" then
+        some ((Api.momentCall v ctx call).map fun m => [m])
+      else none
+    match res with
+    | .ok l => return s!"ok {showListOr showRat "," l}"
+    | .error e => return s!"err {Api.showErr e}"
+  | _ => none
+
+/-! ## `config`: the glue between the user's containers and the tables of the transitions -/
+
+def parseCfgVariant? (t : String) : Option Config.Variant :=
+  if t == "c" then some .current else if t == "s" then some .sizesByDictOrder
+  else if t == "m" then some .migBySortedNames else if t == "d" then some .demeRewardBySortedNames
+  else none
+
+def parseCfgName? (s : String) : Option String := if s == "" then none else some s
+
+/-- `t:v;t:v` -/
+def parseCfgChanges? (s : String) : Option Config.Changes :=
+  (s.splitOn ";").mapM fun tv => match tv.splitOn ":" with
+    | [t, v] => match parseRat? t, parseRat? v with
+      | some t, some v => some (t, v)
+      | _, _ => none
+    | _ => none
+
+/-- `name=cnt,…` (listing order) | `list:c0,c1,…` | `scalar:c` -/
+def parseCfgN? (s : String) : Option Config.NInput :=
+  match s.splitOn ":" with
+  | ["list", l] => (parseList? String.toNat? l).map .list
+  | ["scalar", c] => c.toNat?.map .scalar
+  | [d] => (parseList? (fun kv => match kv.splitOn "=" with
+      | [k, c] => match parseCfgName? k, c.toNat? with
+        | some k, some c => some (k, c)
+        | _, _ => none
+      | _ => none) d).map .dict
+  | _ => none
+
+/-- `a>b` -/
+def parseCfgPair? (s : String) : Option (String × String) :=
+  match s.splitOn ">" with
+  | [a, b] => match parseCfgName? a, parseCfgName? b with
+    | some a, some b => some (a, b)
+    | _, _ => none
+  | _ => none
+
+/-- `-` | `scalar:v` | `flat:name=v,…` | `name@t:v;t:v|name@…` -/
+def parseCfgSizes? (s : String) : Option Config.SizesInput :=
+  if s == "-" then some .none else
+  match s.splitOn ":" with
+  | ["scalar", v] => (parseRat? v).map .scalar
+  | ["flat", d] => (parseList? (fun kv => match kv.splitOn "=" with
+      | [k, v] => match parseCfgName? k, parseRat? v with
+        | some k, some v => some (k, v)
+        | _, _ => none
+      | _ => none) d).map .flat
+  | _ => ((s.splitOn "|").mapM fun (e : String) => match e.splitOn "@" with
+      | [k, ch] => match parseCfgName? k, parseCfgChanges? ch with
+        | some k, some ch => some (k, ch)
+        | _, _ => none
+      | _ => none).map .full
+
+/-- `-` | `flat:a>b=v,…` | `a>b@t:v;t:v|…` -/
+def parseCfgMig? (s : String) : Option Config.MigInput :=
+  if s == "-" then some .none else
+  match s.splitOn ":" with
+  | ["flat", d] => (parseList? (fun kv => match kv.splitOn "=" with
+      | [k, v] => match parseCfgPair? k, parseRat? v with
+        | some k, some v => some (k, v)
+        | _, _ => none
+      | _ => none) d).map .flat
+  | _ => ((s.splitOn "|").mapM fun (e : String) => match e.splitOn "@" with
+      | [k, ch] => match parseCfgPair? k, parseCfgChanges? ch with
+        | some k, some ch => some (k, ch)
+        | _, _ => none
+      | _ => none).map .full
+
+/-- `config <variant c|s|m|d> <n> <pop_sizes> <migration_rates> <setOrder: names, comma separated|-> <t>` →
+`axis=<names> init=<counts> sizes=<q,…> mig=<row;row;…> deme=<DemeReward index of every axis name>`
+(exact rationals; `bad-request` unless `setOrder` enumerates the unsampled populations exactly once each):
+`Config.axis`, `Config.initVec`, `Config.epochTable`, `Config.demeIndex`. -/
+def handleConfig : List String → Option String
+  | [v, n, sizes, mig, setOrder, t] => do
+    let v ← parseCfgVariant? v
+    let n ← parseCfgN? n
+    let sizes ← parseCfgSizes? sizes
+    let mig ← parseCfgMig? mig
+    let setOrder ← parseList? parseCfgName? setOrder
+    let t ← parseRat? t
+    let I : Config.Input :=
+      { n := n, sizes := Config.normaliseSizes sizes, mig := Config.normaliseMig mig, setOrder := setOrder }
+    if !Config.validSetOrder I then none else
+    let ax := Config.axis I
+    let (sz, mg) := Config.epochTable v I t
+    return s!"axis={showListOr id "," ax} init={showListOr toString "," (Config.initVec I)} sizes={showListOr showRat "," sz} mig={showListOr (showListOr showRat ",") ";" mg} deme={showListOr (fun p => toString (Config.demeIndex v I p)) "," ax}"
+  | _ => none
+
+
 def handle (c : Ctx) (line : String) : Ctx × String :=
   let toks := (line.trimAscii.toString.splitOn " ").filter (· != "")
   let bad := (c, "bad-request")
@@ -582,10 +724,12 @@ def handle (c : Ctx) (line : String) : Ctx × String :=
     match handleInferLab v bk x0 n runs with
     | some ans => (c, ans)
     | none => bad
+  | "config" :: toks => match handleConfig toks with | some ans => (c, ans) | none => bad
   | "validate" :: toks =>
     match handleValidate toks with
     | some ans => (c, ans)
     | none => bad
+  | "api" :: toks => (c, (handleApi toks).getD "bad-request")
   | ["selftest"] =>
     -- exp of a nilpotent matrix is exact; exp(A)·exp(A) = exp(2A); rows of exp(Q) sum to one
     let nil := FMat.ofFn 3 fun i j => if j = i + 1 then 1 else 0
